@@ -140,6 +140,14 @@ func And(a, b bool) bool     { return a && b }
 func Or(a, b bool) bool      { return a || b }
 func Implies(a, b bool) bool { return !a || b }
 
+// LazyObject returns an arbitrary untyped document: presence of a key is
+// decided at its first lookup (at most maxKeys keys per map are present), the
+// dynamic type of a value at its first type assertion.  Engine only.
+func LazyObject(maxKeys int) map[string]any { return map[string]any{} }
+
+// LazyAny returns an arbitrary value of unknown dynamic type.  Engine only.
+func LazyAny(maxKeys int) any { return nil }
+
 // Thorough reports whether the thorough tier is running.
 func Thorough() bool { return os.Getenv("VERIF_TIER") == "thorough" }
 
